@@ -569,10 +569,77 @@ def run_case(case, ctx):
                                            'events_entered': mon.entered})
 
 
+def run_startup_loop(case, ctx):
+    """
+    A loop closed during the start-up: 'inp' is initialised by its own 'put' event; its output
+    event reaches a block defined later, which therefore gets its regular initialisation right
+    now (the documented exception), and THAT block's output event is addressed back to 'inp',
+    still busy with its 'put'.  Refused with an error that stops the simulation.
+    """
+    import edzed
+    kind = case['kind']
+
+    def build():
+        inp = edzed.Input('inp', initdef=7, on_output=edzed.Event('dst', 'put'))
+        back = edzed.Event('inp', 'put')
+        if case.get('via'):
+            # ... through one more block (a Repeat forwards the event at once)
+            edzed.Repeat('via', dest='inp', etype='put', interval=1000)
+            back = edzed.Event('via', 'put')
+        if kind == 'OutputFunc':
+            edzed.OutputFunc('dst', func=lambda v: v, on_error=None, on_output=back)
+        elif kind == 'Repeat':
+            edzed.Input('sink', initdef=None)
+            edzed.Repeat('dst', dest='sink', etype='put', interval=3600, on_output=back)
+        else:
+            class Custom(edzed.SBlock):
+                def init_regular(self):
+                    self.set_output('ready')
+
+                def _event(self, etype, data):
+                    return None
+            Custom('dst', on_output=back)
+        return inp
+
+    async def drive(sim, inp):
+        await harness.settle(3)
+        return sim.alive()
+    out = harness.run_sim(build, drive)
+    where = f"start-up loop {case}"
+    if out['exc'] is not None:
+        raise core.Violation('harness-run-exception', f"{where}: {out['exc']!r}")
+    ctx.count('startup_loops')
+    err = out['sim'].circuit.error
+    if out['started'] or not isinstance(err, edzed.EdzedCircuitError):
+        raise core.Violation(
+            'recursive-event-did-not-stop-simulation',
+            f"{where}: the event sent back to 'inp' while it was handling its own 'put' did not "
+            f"stop the simulation: started={out['started']}, Circuit.error={err!r}")
+
+
 def run_shard(ctx):
     for case in gen(ctx):
         run_case(case, ctx)
+    idx = 0
+    for kind in ('OutputFunc', 'Repeat', 'Custom'):
+        for via in (False, True):
+            idx += 1
+            if idx % ctx.nshards != ctx.shard:
+                continue
+            case = {'startup_loop': True, 'kind': kind, 'via': via}
+            try:
+                run_startup_loop(case, ctx)
+            except core.Violation as v:
+                ctx.violation(case, v.key, v.msg)
+            ctx.case_done(case, True)
 
 
 def replay(rep, ctx):
+    if rep['case'].get('startup_loop'):
+        try:
+            run_startup_loop(rep['case'], ctx)
+        except core.Violation as v:
+            ctx.violation(rep['case'], v.key, v.msg)
+        ctx.case_done(rep['case'], True)
+        return
     run_case(rep['case'], ctx)
